@@ -15,6 +15,12 @@ Clauses (names used in MONITOR messages):
                configured / requested expiry: ⌈0.95e⌉ ≤ ttl ≤ ⌈1.05e⌉ seconds (exactly ⌈(10500−j)e/10⁷⌉ for
                the scripted draw), the primary entry written by the index path 5 s more than the index entry
   spurious     no error is reported when no fault was injected
+  invalidate   after an Exec / DelCache every named key is gone from its node, unless a DEL command that
+               covers the key was seen to fail (decided PER KEY from the commands the node's server saw)
+  retry        every DEL that was seen to fail is retried by the cleaner on its node after 1 s, 5 s, 1 min,
+               5 min, 1 h (a retry fails iff the node is down at that tick): when a retry is due on a node
+               that is up, its keys are gone
+  dispatch     an entry of a key is only ever found on the node the dispatcher assigns to the key
 -/
 import GoZero.C06.Model
 namespace GoZero.C06.Spec
@@ -28,6 +34,7 @@ def inRange (eMs ttlS : Nat) : Bool := ttlLo eMs ≤ ttlS ∧ ttlS ≤ ttlHi eMs
 
 /-- one entry of the harness' dump: value and TTL in ms (`none` = persistent). -/
 structure Obs where
+  node : Nat
   key : CKey
   val : CVal
   ttl : Option Nat
@@ -35,7 +42,7 @@ structure Obs where
 
 abbrev Dump := List Obs
 
-def Dump.find (d : Dump) (k : CKey) : Option Obs := List.find? (fun o => o.key = k) d
+def Dump.find (d : Dump) (sl : Slot) : Option Obs := List.find? (fun o => o.node = sl.1 ∧ o.key = sl.2) d
 
 inductive Excuse where
   | explicit | stale | unkeyed
@@ -54,9 +61,9 @@ def Mon.init : Mon := { db := St.init, prev := [], excused := [], pend := [] }
 
 /-- `n` ticks of the retry schedule (1 s, 5 s, 1 min, 5 min, 1 h): the tasks left, and the keys whose DEL ran
 successfully on the way. -/
-def tickPend (cf : Bool) : Nat → List Task → List CKey → List Task × List CKey
+def tickPend (dn : Nat → Bool) : Nat → List Task → List Slot → List Task × List Slot
   | 0, ts, acc => (ts, acc)
-  | n + 1, ts, acc => tickPend cf n (ts.filterMap (tickTask cf)) (if cf then acc else acc ++ dueKeys ts)
+  | n + 1, ts, acc => tickPend dn n (ts.filterMap (tickTask dn)) (acc ++ dueSlots dn ts)
 
 def Mon.excuse (m : Mon) (k : CKey) : Option Excuse := (m.excused.find? (·.1 = k)).map (·.2)
 
@@ -77,7 +84,7 @@ def expected (db : St) (k : CKey) : Res :=
     | none => .notfound
 
 /-- was the entry of `k` written (or rewritten) by the operation that led from `prev` to `cur`? -/
-def written (prev cur : Dump) (k : CKey) : Bool :=
+def written (prev cur : Dump) (k : Slot) : Bool :=
   match cur.find k with
   | some o => prev.find k ≠ some o
   | none => false
@@ -86,14 +93,22 @@ def written (prev cur : Dump) (k : CKey) : Bool :=
 structure ObsLine where
   res  : Res
   q    : Nat
-  cmds : List (Cmd × Bool)
+  cmds : List CmdRec
   dump : Dump
   deriving Repr
 
 def anyFault (m : List Bool) (dbf : Bool) : Bool := dbf || m.any id
 
 /-- entries of `cur` that are not identical in `prev`. -/
-def writtenKeys (prev cur : Dump) : List Obs := cur.filter fun o => prev.find o.key ≠ some o
+def writtenKeys (prev cur : Dump) : List Obs := cur.filter fun o => prev.find (o.node, o.key) ≠ some o
+
+/-- is key `k` (on its node `n`) covered by a DEL command that was seen to fail? -/
+def delFailedFor (cmds : List CmdRec) (n : Nat) (k : CKey) : Bool :=
+  cmds.any fun r => r.cmd = .del && r.fail && r.node = n && r.keys.contains k
+
+/-- the retries owed for the DELs of an operation that were seen to fail. -/
+def owed (cmds : List CmdRec) : List Task :=
+  (cmds.filter fun r => r.cmd = .del && r.fail).map fun r => ⟨r.node, r.keys, 1, 1⟩
 
 def ttlSecOf (o : Obs) : Option Nat :=
   match o.ttl with
@@ -114,9 +129,9 @@ def ttlOk (c : Cfg) (o : Obs) (explicitMs : Option Int) (gapAllowed : Bool) : Bo
 
 /-- read clauses for one Take on key `k` whose GET succeeded, given the previous dump; returns
 (violations, cover tags). `dbExp` is what the database holds for the whole read. -/
-def readClauses (report : Bool) (m : Mon) (k : CKey) (exc : List CKey) (dbExp : Res) (o : ObsLine) (qBefore : Nat) :
+def readClauses (c : Cfg) (report : Bool) (m : Mon) (k : CKey) (exc : List CKey) (dbExp : Res) (o : ObsLine) (qBefore : Nat) :
     List String × List String :=
-  let live : Bool := match m.prev.find k with
+  let live : Bool := match m.prev.find (c.slot k) with
     | some e => e.val = .ph || parses k e.val
     | none => false
   let served : List String :=
@@ -139,8 +154,12 @@ def monStep (c : Cfg) (report : Bool) (m : Mon) (op : Op) (n : Nat) (o : ObsLine
   let cur := o.dump
   let persistent := (cur.filter (·.ttl.isNone)).map fun x => s!"ttl: persistent key {repr x.key}"
   let wr := writtenKeys m.prev cur
-  let firstGetFailed := o.cmds.head? = some (.get, true)
-  let anyCmdFailed := o.cmds.any (·.2)
+  let misplaced := (cur.filter fun x => x.node ≠ c.place x.key).map fun x =>
+    s!"dispatch: entry of key {repr x.key} found on node {x.node}, the dispatcher sends the key to node {c.place x.key}"
+  let firstGetFailed := match o.cmds.head? with
+    | some r => r.cmd = .get && r.fail
+    | none => false
+  let anyCmdFailed := o.cmds.any (·.fail)
   let nowrite (what : String) : List String :=
     if wr ≠ [] then [s!"nowrite: {what} wrote {repr (wr.map (·.key))}"] else []
   let errClauses (mask : List Bool) (dbf : Bool) : List String :=
@@ -154,12 +173,12 @@ def monStep (c : Cfg) (report : Bool) (m : Mon) (op : Op) (n : Nat) (o : ObsLine
     match op with
     | .take pk _ mask dbf =>
       let rc := if firstGetFailed then ([], ["read-getfail"]) else
-        readClauses report m (.p pk) [.p pk] (expected m.db (.p pk)) o 0
+        readClauses c report m (.p pk) [.p pk] (expected m.db (.p pk)) o 0
       let ttl := wr.filterMap fun x => if x.key = .p pk && ttlOk c x none false then none
                                        else some s!"ttl: entry {repr x.key} written with ttl {repr x.ttl}"
       (errClauses mask dbf ++ rc.1 ++ ttl, rc.2, m.db)
     | .qindex a _ mask dbf =>
-      let viaIdx : Option Nat := match m.prev.find (.x a) with
+      let viaIdx : Option Nat := match m.prev.find (c.slot (.x a)) with
         | some e => match e.val with
           | .pk n => some n
           | _ => none
@@ -168,21 +187,21 @@ def monStep (c : Cfg) (report : Bool) (m : Mon) (op : Op) (n : Nat) (o : ObsLine
         match viaIdx with
         | some n =>
           -- second Take on the primary key: its GET is the second command
-          if o.cmds.getD 1 (.get, false) = (.get, true) then
+          if (match o.cmds[1]? with | some r => r.cmd = Cmd.get && r.fail | none => false : Bool) then
             ((if o.res ≠ .cacheerr || o.q ≠ 0 then ["failfast: GET failed but the operation went on"] else []), ["read-getfail"])
           else
-            let live : Bool := match m.prev.find (.p n) with
+            let live : Bool := match m.prev.find (c.slot (.p n)) with
               | some e => e.val = .ph || parses (.p n) e.val
               | none => false
-            let base := readClauses report { m with prev := m.prev } (.p n) [.x a, .p n] (expected m.db (.x a)) o 0
+            let base := readClauses c report m (.p n) [.x a, .p n] (expected m.db (.x a)) o 0
             (base.1, base.2 ++ [if live then "index-hit-primary-hit" else "index-hit-primary-load"])
-        | none => readClauses report m (.x a) [.x a] (expected m.db (.x a)) o 0
+        | none => readClauses c report m (.x a) [.x a] (expected m.db (.x a)) o 0
       let ttl := wr.filterMap fun x => if ttlOk c x none true then none
                                        else some s!"ttl: entry {repr x.key} written with ttl {repr x.ttl}"
       let gap : List String :=
         match wr.find? (·.key = .x a) with
         | some xi => match xi.val with
-          | .pk n => match cur.find (.p n), xi.ttl with
+          | .pk n => match cur.find (c.slot (.p n)), xi.ttl with
             | some pe, some xt => if pe.ttl = some (xt + safeGapSec * 1000) then []
                                   else [s!"ttl: primary entry {repr pe.key} does not outlive the index entry by 5 s"]
             | _, _ => [s!"ttl: index entry written without its primary entry"]
@@ -190,16 +209,20 @@ def monStep (c : Cfg) (report : Bool) (m : Mon) (op : Op) (n : Nat) (o : ObsLine
         | none => []
       (errClauses mask dbf ++ rc.1 ++ ttl ++ gap, rc.2, m.db)
     | .get _ mask => (errClauses mask false ++ nowrite "GetCache", [], m.db)
-    | .exec ks w mask dbf =>
-      let left := if !dbf && !failAt mask 0 then ks.filter fun k => (cur.find k).isSome else []
+    | .exec ks w _ dbf =>
+      let left := if !dbf then ks.filter fun k => (cur.find (c.slot k)).isSome && !delFailedFor o.cmds (c.place k) k else []
       (nowrite "Exec" ++ (if dbf && o.res ≠ .dberr then ["dberr: Exec swallowed the database error"] else [])
+        ++ (if dbf && o.cmds ≠ [] then ["dberr: Exec touched the cache although the database write failed"] else [])
         ++ (if !dbf && o.res ≠ .ok then ["spurious: Exec failed"] else [])
-        ++ (if left ≠ [] then [s!"invalidate: still cached after an Exec whose DEL did not fail: {repr left}"] else []),
-       [], if dbf then m.db else applyWrite m.db w)
-    | .del ks mask =>
-      let left := if !failAt mask 0 then ks.filter fun k => (cur.find k).isSome else []
+        ++ (if left ≠ [] then [s!"invalidate: still cached after an Exec although no DEL covering it failed: {repr left}"] else []),
+       (if !dbf && left = [] && ks.any (fun k => delFailedFor o.cmds (c.place k) k)
+           && ks.any (fun k => !delFailedFor o.cmds (c.place k) k) then ["exec-del-partly-failed"] else []),
+       if dbf then m.db else applyWrite m.db w)
+    | .del ks _ =>
+      let left := ks.filter fun k => (cur.find (c.slot k)).isSome && !delFailedFor o.cmds (c.place k) k
       (nowrite "DelCache"
-        ++ (if left ≠ [] then [s!"invalidate: still cached after a DelCache whose DEL did not fail: {repr left}"] else []),
+        ++ (if o.res ≠ .ok then ["spurious: DelCache failed"] else [])
+        ++ (if left ≠ [] then [s!"invalidate: still cached after a DelCache although no DEL covering it failed: {repr left}"] else []),
        [], m.db)
     | .set k _ e _ mask =>
       let ttl := wr.filterMap fun x => if x.key = k && ttlOk c x (match e with | some v => some v | none => some 0) false then none
@@ -207,8 +230,8 @@ def monStep (c : Cfg) (report : Bool) (m : Mon) (op : Op) (n : Nat) (o : ObsLine
       (errClauses mask false ++ ttl, [], m.db)
     | .raw _ _ _ => ([], [], m.db)
     | .ft ms => ((if cur ≠ ageDump m.prev ms then ["ttl: entries did not age by the elapsed time"] else []), [], m.db)
-    | .tick cf =>
-      let left := (tickPend cf n m.pend []).2.filter fun k => (cur.find k).isSome
+    | .tick down =>
+      let left := (tickPend (downOf down) n m.pend []).2.filter fun k => (cur.find k).isSome
       (nowrite "cleaner"
         ++ (if left ≠ [] then [s!"retry: a failed DEL was not retried on schedule, still cached: {repr left}"] else []),
        [], m.db)
@@ -217,25 +240,26 @@ def monStep (c : Cfg) (report : Bool) (m : Mon) (op : Op) (n : Nat) (o : ObsLine
     | .set k' _ _ _ _ => k = k'
     | .raw k' _ _ => k = k'
     | _ => false
-  let execKeys : Option (List CKey × Bool) := match op with
-    | .exec ks _ mask dbf => if dbf then none else some (ks, failAt mask 0)
+  let execKeys : Option (List CKey) := match op with
+    | .exec ks _ _ dbf => if dbf then none else some ks
     | _ => none
   let pend' : List Task := match op with
-    | .exec ks _ mask dbf => if !dbf && ks ≠ [] && failAt mask 0 then m.pend ++ [⟨ks, 1, 1⟩] else m.pend
-    | .del ks mask => if ks ≠ [] && failAt mask 0 then m.pend ++ [⟨ks, 1, 1⟩] else m.pend
-    | .tick cf => (tickPend cf n m.pend []).1
+    | .exec _ _ _ dbf => if !dbf then m.pend ++ owed o.cmds else m.pend
+    | .del _ _ => m.pend ++ owed o.cmds
+    | .tick down => (tickPend (downOf down) n m.pend []).1
     | _ => m.pend
   let excused' : List (CKey × Excuse) := cur.filterMap fun e =>
     let isFt : Bool := match op with | .ft _ => true | _ => false
-    if m.prev.find e.key ≠ some e ∧ !isFt then
+    if m.prev.find (e.node, e.key) ≠ some e ∧ !isFt then
       (if isExplicit e.key then some (e.key, .explicit) else none)
     else match m.excuse e.key with
       | some x => some (e.key, x)
       | none => match execKeys with
         | some ks => if dbView newDb e.key ≠ dbView m.db e.key then
-                       (if e.key ∈ ks.1 then (if ks.2 then some (e.key, .stale) else none) else some (e.key, .unkeyed)) else none
+                       (if e.key ∈ ks then (if delFailedFor o.cmds e.node e.key then some (e.key, .stale) else none)
+                        else some (e.key, .unkeyed)) else none
         | none => none
   ({ db := { m.db with rows := newDb.rows, idx := newDb.idx }, prev := cur, excused := excused', pend := pend' },
-   persistent ++ r.1, r.2.1)
+   persistent ++ misplaced ++ r.1, r.2.1)
 
 end GoZero.C06.Spec
